@@ -6,6 +6,7 @@ import Driver.C14
 import Driver.Chan
 import Driver.C07
 import Driver.C20
+import Driver.C13
 /-! nvdriver: line protocol. Each input line `<PROP> <tokens…>` is answered by exactly one line:
     `ok[ …]` | `diff …` (model and implementation disagree) | `specviol …` (the implementation's
     own answer violates the property predicate) | `bad-op`. -/
@@ -17,6 +18,7 @@ structure DS where
   chan : Driver.Chan.S := {}
   c07 : Driver.C07.S := {}
   c20 : Driver.C20.S := {}
+  c13 : Driver.C13.S := {}
 
 def dispatch (d : DS) (line : String) : DS × String :=
   match (line.trimAscii.toString.splitOn " ").filter (· ≠ "") with
@@ -35,6 +37,7 @@ def dispatch (d : DS) (line : String) : DS × String :=
     | "new" :: _ | "hdl" :: _ | "add" :: _ | "invoke" :: _ => let (s, o) := Driver.C07.handle d.c07 rest; ({ d with c07 := s }, o)
     | _ => let (s, o) := Driver.Chan.handle "C07" d.chan rest; ({ d with chan := s }, o)
   | "C20" :: rest => let (s, o) := Driver.C20.handle d.c20 rest; ({ d with c20 := s }, o)
+  | "C13" :: rest => let (s, o) := Driver.C13.handle d.c13 rest; ({ d with c13 := s }, o)
   | "C14" :: rest => (d, Driver.C14.handle rest)
   | "C04" :: rest => (d, Driver.C04.handle rest)
   | "C08" :: rest => (d, Driver.C04.handle rest)
